@@ -8,6 +8,10 @@ import M3d.Lemmas.SoupFast
 import M3d.Lemmas.BitmapLift
 import M3d.Lemmas.McFan5
 import M3d.Lemmas.C01Search
+import M3d.Lemmas.C01Conj
+import Mathlib.Algebra.Order.Field.Rat
+import Mathlib.Tactic.NormNum
+import Mathlib.Tactic.FinCases
 import M3d.Lemmas.RectMeshOrient
 import M3d.Lemmas.RectMeshClosed
 import M3d.Lemmas.MeshRect
@@ -410,44 +414,208 @@ theorem ms_search_closed_on_every_lattice {K : Type} [Field K] [LinearOrder K] [
   rw [← cnt_eq_pcnt, ← cnt_eq_pcnt]
   exact ms_closed_on_every_lattice nx ny lab hb v
 
+/-! ### The Conj members (`MarchingCubesConj`, `MarchingSquaresConj`)
+
+The searched mesh of the TRANSFORMED solid is mapped back, vertex by vertex, through the inverse `g` of the joined
+transform (`mesh.Transform(joined.Inverse())`), and then every face is reversed (`InvertNormals`) if the mapped mesh
+came out inside out: its signed volume (`mcSignedVolume`) / signed area (`msSignedArea`), measured from one of its
+own vertices `o`, is negative — `M3d.C01Search.conjMesh g o` / `conjMesh2 g o`.  (Before /repo d1d50a8 the faces were
+never reversed and a mirror image in the transform list returned the surface inside out.) -/
+
 open M3d.C01Search in
-/-- **`MarchingCubesConj`**: the searched mesh of the transformed solid mapped back, vertex by vertex, through the
-inverse of the joined transform (`mesh.Transform(joined.Inverse())`).  For EVERY injective map `g` of space (every
-inverse of a `Transform` is one) the result is still edge-balanced at every pair of points … -/
+/-- **`MarchingCubesConj` is edge-balanced for EVERY injective map back** (every inverse of a `Transform` is one),
+orientation-preserving or not, whatever the sign test decides and wherever the volume is measured from: every
+directed edge at most once and its reverse exactly as often, at every pair of points. -/
 theorem mc_conj_edges_balanced_on_every_lattice {K : Type} [Field K] [LinearOrder K] [IsStrictOrderedRing K]
     (nx ny nz : Nat) (lab : Nat → Nat → Nat → Bool)
     (hb : ∀ x y z, (x = 0 ∨ y = 0 ∨ z = 0 ∨ nx ≤ x ∨ ny ≤ y ∨ nz ≤ z) → lab x y z = false)
     (o : K × K × K) (δ : K) (hδ : 0 < δ) (solid : K × K × K → Bool) (iters : Nat)
-    (g : K × K × K → K × K × K) (hg : Function.Injective g) (p q : K × K × K) :
-    pecnt ((searchMesh o δ solid iters (mcMesh mcTable nx ny nz lab)).map (map3 g)) (p, q) =
-      pecnt ((searchMesh o δ solid iters (mcMesh mcTable nx ny nz lab)).map (map3 g)) (q, p) ∧
-    pecnt ((searchMesh o δ solid iters (mcMesh mcTable nx ny nz lab)).map (map3 g)) (p, q) ≤ 1 :=
-  balanced_map g hg _ (mc_search_edges_balanced_on_every_lattice nx ny nz lab hb o δ hδ solid iters) p q
+    (g : K × K × K → K × K × K) (hg : Function.Injective g) (ref p q : K × K × K) :
+    pecnt (conjMesh g ref (searchMesh o δ solid iters (mcMesh mcTable nx ny nz lab))) (p, q) =
+      pecnt (conjMesh g ref (searchMesh o δ solid iters (mcMesh mcTable nx ny nz lab))) (q, p) ∧
+    pecnt (conjMesh g ref (searchMesh o δ solid iters (mcMesh mcTable nx ny nz lab))) (p, q) ≤ 1 := by
+  unfold searchMesh
+  refine conjMesh_balanced g hg ref _ (searchPos_injective o δ hδ solid iters) _ (fun U V => ?_) p q
+  rw [← ecnt_eq_pecnt, ← ecnt_eq_pecnt]
+  exact mc_edges_balanced_on_every_lattice nx ny nz lab hb U V
 
 open M3d.C01Search in
-/-- … and every vertex fan is still one cycle.  (Whether the normals still point outwards depends on `g`: an
-orientation-reversing transform returns the surface inside out — documented as "applies the inverse to the resulting
-mesh" —, so the correspondence only generates orientation-preserving transforms.) -/
+/-- … and **every vertex fan of `MarchingCubesConj` is one cycle**, for every injective map back and either outcome
+of the sign test (a reversed simple cycle is a simple cycle; lattice triangles have three distinct vertices,
+`mc_rows_wellformed`). -/
 theorem mc_conj_fans_one_cycle_on_every_lattice {K : Type} [Field K] [LinearOrder K] [IsStrictOrderedRing K]
     (nx ny nz : Nat) (lab : Nat → Nat → Nat → Bool)
     (hb : ∀ x y z, (x = 0 ∨ y = 0 ∨ z = 0 ∨ nx ≤ x ∨ ny ≤ y ∨ nz ≤ z) → lab x y z = false)
     (o : K × K × K) (δ : K) (hδ : 0 < δ) (solid : K × K × K → Bool) (iters : Nat)
-    (g : K × K × K → K × K × K) (hg : Function.Injective g) (p : K × K × K)
-    (hne : plink p ((searchMesh o δ solid iters (mcMesh mcTable nx ny nz lab)).map (map3 g)) ≠ []) :
-    PFanCycle (plink p ((searchMesh o δ solid iters (mcMesh mcTable nx ny nz lab)).map (map3 g))) :=
-  fans_map g hg _ (mc_search_fans_one_cycle_on_every_lattice nx ny nz lab hb o δ hδ solid iters) p hne
+    (g : K × K × K → K × K × K) (hg : Function.Injective g) (ref p : K × K × K)
+    (hne : plink p (conjMesh g ref (searchMesh o δ solid iters (mcMesh mcTable nx ny nz lab))) ≠ []) :
+    PFanCycle (plink p (conjMesh g ref (searchMesh o δ solid iters (mcMesh mcTable nx ny nz lab)))) := by
+  unfold searchMesh at hne ⊢
+  refine conjMesh_fans g hg ref _ (searchPos_injective o δ hδ solid iters) _ ?_ (fun V hV => ?_) p hne
+  · intro t ht
+    obtain ⟨h1, h2, h3⟩ := mcMesh_tri_distinct mcTable mc_rows_wellformed nx ny nz lab t ht
+    exact ⟨h1, h2, h3⟩
+  · rw [← glink_eq_plink] at hV ⊢
+    exact (gfanCycle_iff _).1 (mc_fans_one_cycle_on_every_lattice nx ny nz lab hb V hV)
 
 open M3d.C01Search in
-/-- **`MarchingSquaresConj`** stays a closed outline under every injective map back. -/
+/-- **`MarchingSquaresConj`** stays a closed outline under every injective map back and either outcome of the sign
+test (reversing every segment exchanges in- and out-degree). -/
 theorem ms_conj_closed_on_every_lattice {K : Type} [Field K] [LinearOrder K] [IsStrictOrderedRing K]
     (nx ny : Nat) (lab : Nat → Nat → Bool)
     (hb : ∀ x y, (x = 0 ∨ y = 0 ∨ nx ≤ x ∨ ny ≤ y) → lab x y = false)
     (o : K × K) (δ : K) (hδ : 0 < δ) (solid : K × K → Bool) (np : GV2 → Bool) (iters : Nat)
-    (g : K × K → K × K) (hg : Function.Injective g) (p : K × K) :
-    pcnt false ((searchMesh2 o δ solid np iters (msMesh msTable nx ny lab)).map (map2 g)) p =
-      pcnt true ((searchMesh2 o δ solid np iters (msMesh msTable nx ny lab)).map (map2 g)) p ∧
-    pcnt false ((searchMesh2 o δ solid np iters (msMesh msTable nx ny lab)).map (map2 g)) p ≤ 1 :=
-  closed_map g hg _ (ms_search_closed_on_every_lattice nx ny lab hb o δ hδ solid np iters) p
+    (g : K × K → K × K) (hg : Function.Injective g) (ref p : K × K) :
+    pcnt false (conjMesh2 g ref (searchMesh2 o δ solid np iters (msMesh msTable nx ny lab))) p =
+      pcnt true (conjMesh2 g ref (searchMesh2 o δ solid np iters (msMesh msTable nx ny lab))) p ∧
+    pcnt false (conjMesh2 g ref (searchMesh2 o δ solid np iters (msMesh msTable nx ny lab))) p ≤ 1 := by
+  unfold searchMesh2
+  refine conjMesh2_closed g hg ref _ (searchPos2_injective o δ hδ solid np iters) _ (fun v => ?_) p
+  rw [← cnt_eq_pcnt, ← cnt_eq_pcnt]
+  exact ms_closed_on_every_lattice nx ny lab hb v
+
+open M3d.C01Search in
+/-- **The sign test of `MarchingCubesConj` reverses the faces exactly when the map back reverses orientation**, for
+EVERY invertible affine map back `g : p ↦ L p + w` (`Aff3`: `Translate`, `Scale`, `VecScale`, `Matrix3Transform`, their
+inverses and all their compositions, `Aff3.comp` / `Aff3.det_comp`), every closed triangle soup of positive signed volume
+in the transformed space, and every point `ref` the volume is measured from: the result is, triangle for triangle,
+`conjTri g` of the input — mapped back, and reversed iff `det L < 0`.  (The signed volume of a closed soup is
+multiplied by `det L` under the map and does not depend on the reference point, `vol6At_affine`.)  Its signed volume
+is positive from wherever it is measured. -/
+theorem conj_flip_iff_reversing {K : Type} [Field K] [LinearOrder K] [IsStrictOrderedRing K]
+    (g : Aff3 K) (hd : g.det ≠ 0) (ref ref' : K × K × K) (ts : List ((K × K × K) × (K × K × K) × (K × K × K)))
+    (hclosed : ∀ p q, pecnt ts (p, q) = pecnt ts (q, p)) (hvol : 0 < vol6 ts) :
+    conjMesh g.apply ref ts = ts.map (conjTri g) ∧ 0 < vol6At ref' (conjMesh g.apply ref ts) :=
+  ⟨conjMesh_eq g hd ref ts hclosed hvol, conjMesh_vol_pos g hd ref ref' ts hclosed hvol⟩
+
+open M3d.C01Search in
+/-- **Normals of `MarchingCubesConj` point the way they did in the transformed space, for every invertible affine map
+back**: if a direction `v` lies on the normal side of a triangle `t` of the transformed space (`normal(t) · v > 0`: `v`
+leaves the transformed solid through `t`), then the mapped-back direction `L v` lies on the normal side of the
+triangle returned for `t`.  The solid of the original space is the image of the transformed one under `g`, so
+the normals point from its contained to its excluded side.  Without the reversal (`conjTri` replaced by the bare
+map) this fails for every `g` with `det L < 0`: `ndot_map`. -/
+theorem conj_normals_follow_the_solid {K : Type} [Field K] [LinearOrder K] [IsStrictOrderedRing K]
+    (g : Aff3 K) (hd : g.det ≠ 0) (t : (K × K × K) × (K × K × K) × (K × K × K)) (v : K × K × K)
+    (h : 0 < ndot t v) : 0 < ndot (conjTri g t) (g.lin v) :=
+  conjTri_outward g hd t v h
+
+open M3d.C01Search in
+/-- 2-D twins for `MarchingSquaresConj` (`Aff2`; the contained side is on the right of every segment: shoelace sum
+negative, `ndot2 s v > 0` iff `v` points to the excluded side). -/
+theorem conj2_flip_iff_reversing {K : Type} [Field K] [LinearOrder K] [IsStrictOrderedRing K]
+    (g : Aff2 K) (hd : g.det ≠ 0) (ref ref' : K × K) (ss : List ((K × K) × (K × K)))
+    (hclosed : ∀ v, pcnt false ss v = pcnt true ss v) (hvol : shoe2 ss < 0) :
+    conjMesh2 g.apply ref ss = ss.map (conjSeg g) ∧ shoe2At ref' (conjMesh2 g.apply ref ss) < 0 :=
+  ⟨conjMesh2_eq g hd ref ss hclosed hvol, conjMesh2_shoe_neg g hd ref ref' ss hclosed hvol⟩
+
+open M3d.C01Search in
+/-- … and a direction on the excluded side of a segment of the transformed plane (`ndot2 s v > 0`: to the left of the
+segment) is, mapped back, on the excluded side of the segment `MarchingSquaresConj` returns for it, for every invertible
+affine map back. -/
+theorem conj2_normals_follow_the_solid {K : Type} [Field K] [LinearOrder K] [IsStrictOrderedRing K]
+    (g : Aff2 K) (hd : g.det ≠ 0) (s : (K × K) × (K × K)) (v : K × K)
+    (h : 0 < ndot2 s v) : 0 < ndot2 (conjSeg g s) (g.lin v) :=
+  conjSeg_outward g hd s v h
+
+open M3d.C01Search in
+/-- **`MarchingCubesConj` is outward on every lattice, for every invertible affine transform list**
+(orientation-preserving or not) — PARTIAL in one hypothesis: `hvol`, the searched mesh of the transformed solid has
+positive signed volume.  (Closedness of that mesh is `mc_search_edges_balanced_on_every_lattice`; that its triangles
+face outward is per cell `mc_fan_is_outward_path`; the positivity of the total volume is not mechanised for all
+lattices — the driver evaluates the exact volume of the lattice mesh on every `mc`/`mcs`/`mcj` case and that of the real
+mesh on every `soup3` case.)  Conclusion: the result is the searched mesh mapped back, every triangle reversed iff
+`det L < 0`; its signed volume is positive; every direction on the normal side of a triangle of the transformed space
+is, mapped back, on the normal side of the returned triangle.
+Full statement without `hvol`: not proved. -/
+theorem mc_conj_outward_on_every_lattice_partial {K : Type} [Field K] [LinearOrder K] [IsStrictOrderedRing K]
+    (nx ny nz : Nat) (lab : Nat → Nat → Nat → Bool)
+    (hb : ∀ x y z, (x = 0 ∨ y = 0 ∨ z = 0 ∨ nx ≤ x ∨ ny ≤ y ∨ nz ≤ z) → lab x y z = false)
+    (o : K × K × K) (δ : K) (hδ : 0 < δ) (solid : K × K × K → Bool) (iters : Nat)
+    (g : Aff3 K) (hd : g.det ≠ 0) (ref ref' : K × K × K)
+    (hvol : 0 < vol6 (searchMesh o δ solid iters (mcMesh mcTable nx ny nz lab))) :
+    conjMesh g.apply ref (searchMesh o δ solid iters (mcMesh mcTable nx ny nz lab)) =
+      (searchMesh o δ solid iters (mcMesh mcTable nx ny nz lab)).map (conjTri g) ∧
+    0 < vol6At ref' (conjMesh g.apply ref (searchMesh o δ solid iters (mcMesh mcTable nx ny nz lab))) ∧
+    ∀ t ∈ searchMesh o δ solid iters (mcMesh mcTable nx ny nz lab), ∀ v, 0 < ndot t v →
+      0 < ndot (conjTri g t) (g.lin v) := by
+  have hc : ∀ p q, pecnt (searchMesh o δ solid iters (mcMesh mcTable nx ny nz lab)) (p, q) =
+      pecnt (searchMesh o δ solid iters (mcMesh mcTable nx ny nz lab)) (q, p) :=
+    fun p q => (mc_search_edges_balanced_on_every_lattice nx ny nz lab hb o δ hδ solid iters p q).1
+  obtain ⟨h1, h2⟩ := conj_flip_iff_reversing g hd ref ref' _ hc hvol
+  exact ⟨h1, h2, fun t _ v hv => conjTri_outward g hd t v hv⟩
+
+open M3d.C01Search in
+/-- 2-D twin (`MarchingSquaresConj`), PARTIAL in `hvol`: the searched outline of the transformed solid runs clockwise
+(negative shoelace sum; per cell `ms_role_rule`). -/
+theorem ms_conj_outward_on_every_lattice_partial {K : Type} [Field K] [LinearOrder K] [IsStrictOrderedRing K]
+    (nx ny : Nat) (lab : Nat → Nat → Bool)
+    (hb : ∀ x y, (x = 0 ∨ y = 0 ∨ nx ≤ x ∨ ny ≤ y) → lab x y = false)
+    (o : K × K) (δ : K) (hδ : 0 < δ) (solid : K × K → Bool) (np : GV2 → Bool) (iters : Nat)
+    (g : Aff2 K) (hd : g.det ≠ 0) (ref ref' : K × K)
+    (hvol : shoe2 (searchMesh2 o δ solid np iters (msMesh msTable nx ny lab)) < 0) :
+    conjMesh2 g.apply ref (searchMesh2 o δ solid np iters (msMesh msTable nx ny lab)) =
+      (searchMesh2 o δ solid np iters (msMesh msTable nx ny lab)).map (conjSeg g) ∧
+    shoe2At ref' (conjMesh2 g.apply ref (searchMesh2 o δ solid np iters (msMesh msTable nx ny lab))) < 0 ∧
+    ∀ s ∈ searchMesh2 o δ solid np iters (msMesh msTable nx ny lab), ∀ v, 0 < ndot2 s v →
+      0 < ndot2 (conjSeg g s) (g.lin v) := by
+  have hc : ∀ v, pcnt false (searchMesh2 o δ solid np iters (msMesh msTable nx ny lab)) v =
+      pcnt true (searchMesh2 o δ solid np iters (msMesh msTable nx ny lab)) v :=
+    fun v => (ms_search_closed_on_every_lattice nx ny lab hb o δ hδ solid np iters v).1
+  obtain ⟨h1, h2⟩ := conj2_flip_iff_reversing g hd ref ref' _ hc hvol
+  exact ⟨h1, h2, fun s _ v hv => conjSeg_outward g hd s v hv⟩
+
+open M3d.C01Search in
+/-- Non-vacuity of `hvol` in the two `_partial` theorems: over ℚ, unit spacing, no search iterations, the octahedron
+round one inside lattice point has positive signed volume, the square round one inside point a negative shoelace sum. -/
+example :
+    let lab : Nat → Nat → Nat → Bool := fun x y z => x == 1 && y == 1 && z == 1
+    0 < vol6 (searchMesh ((0 : ℚ), (0 : ℚ), (0 : ℚ)) 1 (fun _ => false) 0 (mcMesh mcTable 2 2 2 lab)) := by
+  decide +kernel
+
+open M3d.C01Search in
+example :
+    let lab : Nat → Nat → Bool := fun x y => x == 1 && y == 1
+    shoe2 (searchMesh2 ((0 : ℚ), (0 : ℚ)) 1 (fun _ => false) (fun _ => false) 0 (msMesh msTable 2 2 lab)) < 0 := by
+  decide +kernel
+
+open M3d.C01Search in
+/-- Non-vacuity: the tetrahedron `0, e₁, e₂, e₃` over ℚ is closed with `vol6 = 1`; under the mirror image `x ↦ −x`
+(`det = −1`) `conjMesh` returns the four triangles mapped AND reversed, measured from any vertex; the bare map back
+(what the code returned before the fix) has volume `−1`. -/
+example :
+    let pts : Fin 4 → ℚ × ℚ × ℚ := fun i =>
+      if i = 0 then (0, 0, 0) else if i = 1 then (1, 0, 0) else if i = 2 then (0, 1, 0) else (0, 0, 1)
+    let ids : List (Fin 4 × Fin 4 × Fin 4) := [(0, 2, 1), (0, 1, 3), (1, 2, 3), (2, 0, 3)]
+    let ts := ids.map (map3 pts)
+    let g : Aff3 ℚ := ⟨-1, 0, 0, 0, 1, 0, 0, 0, 1, 0, 0, 0⟩
+    conjMesh g.apply (g.apply (pts 3)) ts = ts.map (fun t => flip3 (map3 g.apply t)) ∧
+      vol6At (pts 0) (ts.map (map3 g.apply)) = -1 ∧ vol6At (pts 0) (conjMesh g.apply (g.apply (pts 3)) ts) = 1 := by
+  intro pts ids ts g
+  have hd : g.det ≠ 0 := by norm_num [g, Aff3.det]
+  have hneg : g.det < 0 := by norm_num [g, Aff3.det]
+  have e0 : pts 0 = (0, 0, 0) := rfl
+  have e1 : pts 1 = (1, 0, 0) := rfl
+  have e2 : pts 2 = (0, 1, 0) := rfl
+  have e3 : pts 3 = (0, 0, 1) := rfl
+  have hinj : Function.Injective pts := by
+    intro i j h
+    fin_cases i <;> fin_cases j <;> simp [pts] at h ⊢
+  have hids : ∀ U V, pecnt ids (U, V) = pecnt ids (V, U) ∧ pecnt ids (U, V) ≤ 1 := by decide
+  have hc : ∀ p q, pecnt ts (p, q) = pecnt ts (q, p) := fun p q => (balanced_map pts hinj ids hids p q).1
+  have hts : ts = [((0, 0, 0), (0, 1, 0), (1, 0, 0)), ((0, 0, 0), (1, 0, 0), (0, 0, 1)),
+      ((1, 0, 0), (0, 1, 0), (0, 0, 1)), ((0, 1, 0), (0, 0, 0), (0, 0, 1))] := by
+    simp only [ts, ids, List.map_cons, List.map_nil, map3, e0, e1, e2, e3]
+  have hv : 0 < vol6 ts := by rw [hts]; norm_num [vol6, lsum, det3]
+  have hmap : ts.map (conjTri g) = ts.map (fun t => flip3 (map3 g.apply t)) := by
+    apply List.map_congr_left
+    intro t _
+    simp only [conjTri, hneg, if_true]
+  refine ⟨?_, ?_, ?_⟩
+  · rw [(conj_flip_iff_reversing g hd _ (pts 0) ts hc hv).1, hmap]
+  · rw [hts, e0]; norm_num [vol6At, det3, sub3, map3, Aff3.apply, Aff3.lin, g]
+  · rw [(conj_flip_iff_reversing g hd _ (pts 0) ts hc hv).1, hmap, hts, e0]
+    norm_num [vol6At, det3, sub3, map3, flip3, Aff3.apply, Aff3.lin, g]
 
 open M3d.C01Search in
 /-- Non-vacuity (and the reason the theorems above are about the FIRST component of `mcSearchPoint`): for the solid
